@@ -913,7 +913,7 @@ def expected_ava(identity, nf, allow_unknown, report):
             rk = DOCUMENTED_ALIASES.get((nf, lk), tos[nf][lk])
         else:
             # not in the map: sent under its own name; the SP keeps it only with allow_unknown_attributes
-            if key.strip().lower() in wires.get(NF_URI, ()):
+            if any(key.strip().lower() in w for w in wires.values()):
                 report("unmapped-name-is-a-wire-name", key)
                 return None
             if not allow_unknown:
